@@ -92,6 +92,13 @@ Definition apply_changes (referrers : list desc) (changes : list change) : apply
 Definition filter_referrers (refs : list desc) (art : N) : list desc :=
   if art =? 0 then refs else filter (fun r => dart r =? art) refs.
 
+(* Repository.referrersByTagSchema: the fetched index is cleaned with
+   applyReferrerChanges(referrers, nil) (errNoReferrerUpdate = it is clean already), then
+   filtered by artifact type; no index (404) = no referrers *)
+Definition list_referrers (r : option (list desc)) (art : N) : list desc :=
+  let l := match r with Some x => x | None => [] end in
+  filter_referrers (match apply_changes l [] with Updated c => c | NoUpdate => l end) art.
+
 (* ---- specification side (used by the theorems) ---- *)
 
 Definition keys (l : list desc) : list N := map dkey l.
